@@ -190,11 +190,430 @@ Proof.
   - rewrite remove_b_names. apply NoDup_filter. assumption.
   - apply NoDup_filter. assumption.
   - intros m. rewrite remove_b_names, !filter_In. rewrite C3. tauto.
-  - destruct (Nat.ltb_spec (length (filter (fun x => negb (x =? n)) (w_order s))) (w_next s)); lia.
+  - match goal with |- context [if ?c then _ else _] => destruct c eqn:E end; [lia|apply Nat.ltb_ge in E; lia].
   - intros Hf. specialize (C6 Hf). pose proof (remove_b_jobs n (w_bindings s) b C1 Hl) as Hr.
-    unfold held in *. cbn. fold (jobs_of b).
+    unfold held in *. cbn. fold (jobs_of b). fold (unconf_jobs (remove_b n (w_bindings s))).
     set (U := unconf_jobs (w_bindings s)) in *. set (U' := unconf_jobs (remove_b n (w_bindings s))) in *. clearbody U U'.
     perm_solve.
   - intros x Hx. apply C7. clear -Hx. induction (w_bindings s) as [|a l IH]; cbn in Hx; [contradiction|].
     destruct (b_name a =? n); [right; auto|]. destruct Hx as [->|Hx]; [left; reflexivity|right; auto].
+Qed.
+
+Lemma find_ctrl_in c bs b : find_ctrl c bs = Some b -> In b bs /\ b_ctrl b = c.
+Proof.
+  induction bs as [|a bs IH]; cbn; [discriminate|]. destruct (Z.eqb_spec (b_ctrl a) c).
+  - intros [= <-]. split; [left; reflexivity|assumption].
+  - intros H. destruct (IH H). split; [right; assumption|assumption].
+Qed.
+
+Lemma binding_from_in s c se n b : binding_from s c se n = Some b -> In b (w_bindings s).
+Proof.
+  unfold binding_from. destruct (negb (se =? w_sess s)); [discriminate|].
+  destruct (find_ctrl c (w_bindings s)) eqn:Hf; [|discriminate]. destruct (b_nonce b0 =? n); [|discriminate].
+  intros [= <-]. apply (find_ctrl_in _ _ _ Hf).
+Qed.
+
+(* advanceConfirmed on a live binding, within its bounds *)
+Lemma w_advance_core s b c s' o :
+  WCore s -> In b (w_bindings s) -> 0 <= c <= b_cur b -> w_advance s b c = (s', o) ->
+  WCore s' /\ frame s s' /\ w_failed s' = w_failed s /\
+  exists b1, lookup (b_name b) (w_bindings s') = Some b1 /\ b_cur b1 = b_cur b /\ b_name b1 = b_name b.
+Proof.
+  intros C Hin Hc H. unfold w_advance in H.
+  pose proof (in_lookup b (w_bindings s) (wc_names _ C) Hin) as Hl.
+  destruct (Z.leb_spec c (b_conf b)).
+  { injection H as <- <-. splits; [assumption|apply frame_refl|reflexivity|]. exists b. auto. }
+  injection H as <- <-.
+  set (b' := mkB (b_name b) (b_ctrl b) (b_nonce b) (b_cur b) c (b_demand b) (drop_w c (b_unconf b))).
+  destruct (wc_bind _ C b Hin) as (K1 & K2 & K3).
+  destruct (drop_w_run c (b_conf b) (b_unconf b) ltac:(lia) K3) as [D1 D2].
+  splits.
+  - change (WCore (set_ghost (set_core s (w_pending s) (put_b b' (w_bindings s)) (w_order s) (w_next s)) (w_pending s) (w_accepted s)
+                             (w_confirmed s ++ map job_of (take_w c (b_unconf b))))).
+    apply (WCore_put s b b'); [assumption|exact Hl| |].
+    + unfold binding_ok. cbn. splits; [lia|lia|exact D1].
+    + intros _. unfold jobs_of. cbn [b_unconf b']. rewrite <- (take_drop_w c (b_unconf b)) at 1. rewrite map_app. perm_solve.
+  - unfold frame. cbn. splits; auto.
+  - reflexivity.
+  - exists b'. cbn. rewrite put_b_lookup by (eapply in_names_lookup; exact Hl). cbn. rewrite Z.eqb_refl. auto.
+Qed.
+
+(* replacing a binding by one that holds the same jobs (nonce refresh, demand grant) *)
+Lemma WCore_same_jobs s b b' :
+  WCore s -> lookup (b_name b') (w_bindings s) = Some b -> b_unconf b' = b_unconf b -> b_conf b' = b_conf b -> b_cur b' = b_cur b ->
+  WCore (set_bindings s (put_b b' (w_bindings s))).
+Proof.
+  intros C Hl Hu Hc Hcur.
+  assert (E : set_bindings s (put_b b' (w_bindings s)) =
+              set_ghost (set_core s (w_pending s) (put_b b' (w_bindings s)) (w_order s) (w_next s)) (w_pending s) (w_accepted s) (w_confirmed s))
+    by (destruct s; reflexivity).
+  rewrite E. apply (WCore_put s b b'); [assumption|exact Hl| |].
+  - destruct (wc_bind _ C b (lookup_in _ _ _ Hl)) as (K1 & K2 & K3). unfold binding_ok. rewrite Hu, Hc, Hcur. auto.
+  - intros _. unfold jobs_of. rewrite Hu. apply Permutation_refl.
+Qed.
+
+Lemma NoDup_snoc {A} (l : list A) x : NoDup l -> ~ In x l -> NoDup (l ++ [x]).
+Proof.
+  intros Hn Hx. induction l as [|a l IH]; cbn; [constructor; [intros []|constructor]|].
+  inversion Hn; subst. constructor.
+  - intros Hin. apply in_app_or in Hin. destruct Hin as [Hin|[->|[]]]; [contradiction|]. apply Hx. left. reflexivity.
+  - apply IH; [assumption|]. intros Hin. apply Hx. right. assumption.
+Qed.
+
+Lemma WCore_add s name ctrl nonce :
+  WCore s -> lookup name (w_bindings s) = None ->
+  WCore (set_core s (w_pending s) (w_bindings s ++ [mkB name ctrl nonce 0 0 0 []]) (w_order s ++ [name]) (w_next s)).
+Proof.
+  intros [C1 C2 C3 C4 C5 C6 C7 C8 C9 C10] Hl. apply lookup_none in Hl.
+  constructor; cbn; auto.
+  - unfold names in *. rewrite map_app. cbn. apply NoDup_snoc; assumption.
+  - apply NoDup_snoc; [assumption|]. rewrite C3. assumption.
+  - intros m. unfold names in *. rewrite map_app, !in_app_iff. cbn. rewrite C3. tauto.
+  - rewrite app_length. cbn. lia.
+  - intros Hf. unfold held in *. cbn. rewrite unconf_jobs_app. cbn. rewrite !app_nil_r. auto.
+  - intros b Hb. apply in_app_or in Hb. destruct Hb as [Hb|[<-|[]]]; [auto|]. unfold binding_ok. cbn. splits; auto; lia.
+Qed.
+
+(* handleRegisterConsumer *)
+Lemma w_register_core s ctrl nonce s' o : WCore s -> w_register s ctrl nonce = (s', o) -> WCore s'.
+Proof.
+  intros C H. unfold w_register in H.
+  set (name := owner ctrl) in *.
+  match type of H with (match lookup name (w_bindings ?S1) with _ => _ end) = _ => set (s1 := S1) in H end.
+  assert (C1 : WCore s1).
+  { subst s1. destruct (lookup name (w_bindings s)) as [b|] eqn:Hl.
+    - destruct (b_ctrl b =? ctrl).
+      + destruct (b_nonce b =? nonce); [assumption|].
+        pose proof (lookup_name _ _ _ Hl) as Hn.
+        apply (WCore_same_jobs s b); cbn; auto. rewrite Hn. exact Hl.
+      + pose proof (w_end_binding_core s name C) as Ce.
+        apply WCore_add; [assumption|]. unfold w_end_binding. rewrite Hl. cbn. rewrite remove_b_lookup, Z.eqb_refl. reflexivity.
+    - apply WCore_add; assumption. }
+  destruct (lookup name (w_bindings s1)) as [b|]; [|injection H as <- <-; assumption].
+  destruct ((w_sess s1 =? 0) || (b_conf b + 1 <=? 0) || (b_nonce b =? 0)).
+  - apply (w_terminate_core _ _ _ C1 H).
+  - destruct (w_progress s1) as [s2 o2] eqn:Hp. injection H as <- <-. apply (w_progress_core _ _ _ C1 Hp).
+Qed.
+
+(* handleRequest *)
+Lemma w_request_core s ctrl se n c u via s' o : WCore s -> w_request s ctrl se n c u via = (s', o) -> WCore s'.
+Proof.
+  intros C H. unfold w_request in H.
+  destruct (binding_from s ctrl se n) as [b|] eqn:Hb; [|injection H as <- <-; assumption].
+  pose proof (binding_from_in _ _ _ _ _ Hb) as Hin.
+  destruct ((c <? 0) || (c >? b_cur b) || (u <? c) || (u >? c + maxWindowCap)) eqn:Hr.
+  { apply (w_progress_core _ _ _ (w_end_binding_core s (b_name b) C) H). }
+  destruct (w_advance s b c) as [s1 o1] eqn:Ha.
+  destruct (w_advance_core s b c s1 o1 C Hin ltac:(lia) Ha) as (C1 & F1 & Ff & b1 & Hl1 & Hc1 & Hn1).
+  rewrite Hl1 in H.
+  set (b2 := mkB (b_name b1) (b_ctrl b1) (b_nonce b1) (b_cur b1) (b_conf b1) u (b_unconf b1)) in H.
+  set (s2 := set_bindings s1 (put_b b2 (w_bindings s1))) in H.
+  assert (C2 : WCore s2).
+  { apply (WCore_same_jobs s1 b1); cbn; auto. rewrite Hn1. exact Hl1. }
+  destruct (w_progress s2) as [s3 o3] eqn:Hp. injection H as <- <-. apply (w_progress_core _ _ _ C2 Hp).
+Qed.
+
+(* handleAck *)
+Lemma w_ack_core s ctrl se n c s' o : WCore s -> w_ack s ctrl se n c = (s', o) -> WCore s'.
+Proof.
+  intros C H. unfold w_ack in H.
+  destruct (binding_from s ctrl se n) as [b|] eqn:Hb; [|injection H as <- <-; assumption].
+  pose proof (binding_from_in _ _ _ _ _ Hb) as Hin.
+  destruct ((c <? 0) || (c >? b_cur b)) eqn:Hr.
+  { apply (w_progress_core _ _ _ (w_end_binding_core s (b_name b) C) H). }
+  destruct (w_advance s b c) as [s1 o1] eqn:Ha.
+  destruct (w_advance_core s b c s1 o1 C Hin ltac:(lia) Ha) as (C1 & _).
+  destruct (w_progress s1) as [s2 o2] eqn:Hp. injection H as <- <-. apply (w_progress_core _ _ _ C1 Hp).
+Qed.
+
+Lemma hs_eqb_eq a b : hs_eqb a b = true -> a = b.
+Proof. destruct a, b; cbn; congruence. Qed.
+
+(* handleProduced *)
+Lemma w_produced_core s se t m s' o : WCore s -> w_failed s = false -> w_produced s se t m = (s', o) -> WCore s'.
+Proof.
+  intros C Hnf H. unfold w_produced in H.
+  destruct (negb (se =? w_sess s)); [injection H as <- <-; assumption|].
+  destruct (negb (hs_eqb (w_hs s) HsIdle) && negb (hs_eqb (w_hs s) HsCredit) && (t =? w_tok s) && (m =? w_pmid s)); [injection H as <- <-; assumption|].
+  destruct ((t =? w_ltok s) && (m =? w_lmid s)); [injection H as <- <-; assumption|].
+  destruct (negb (hs_eqb (w_hs s) HsCredit)) eqn:Hcr; [apply (w_terminate_core _ _ _ C H)|].
+  destruct (negb (t =? w_tok s)); [apply (w_terminate_core _ _ _ C H)|].
+  pose proof C as [C1 C2 C3 C4 C5 C6 C7 C8 C9 C10].
+  assert (Hbase : forall q hs pm ps, w_sseq s <= q -> hs <> HsStoredAck ->
+            WCore (set_hs s q hs (w_tok s) pm ps (w_stored s) (w_ltok s) (w_lmid s) (w_ntok s))).
+  { intros q hs pm ps Hq Hhs. constructor; cbn; auto; [|congruence]. intros j Hj. specialize (C8 j Hj). lia. }
+  destruct (w_sseq s >=? maxI64 - 1).
+  { eapply w_terminate_core; [|exact H]. apply Hbase; [lia|discriminate]. }
+  destruct ((m =? 0) || (w_sseq s + 1 <=? 0)).
+  { eapply w_terminate_core; [|exact H]. apply Hbase; [lia|discriminate]. }
+  injection H as <- <-. constructor; cbn; auto.
+  - intros j Hj. specialize (C8 j Hj). lia.
+  - intros _ _. split; [reflexivity|]. intros j Hj. specialize (C8 j Hj). lia.
+Qed.
+
+(* handleStoredAck *)
+Lemma w_storedack_core s se t m s' o : WCore s -> w_failed s = false -> w_storedack s se t m = (s', o) -> WCore s'.
+Proof.
+  intros C Hnf H. unfold w_storedack in H.
+  destruct (negb (se =? w_sess s)); [injection H as <- <-; assumption|].
+  destruct (hs_eqb (w_hs s) HsStoredAck && (t =? w_tok s) && (m =? w_pmid s)) eqn:Hm.
+  - assert (Hhs : w_hs s = HsStoredAck) by (apply hs_eqb_eq; lia).
+    pose proof C as [C1 C2 C3 C4 C5 C6 C7 C8 C9 C10]. destruct (C10 Hnf Hhs) as [K1 K2].
+    match type of H with w_progress ?S2 = _ => set (s2 := S2) in H end.
+    assert (C2' : WCore s2).
+    { subst s2. destruct (w_owns s (w_pmid s)).
+      - constructor; cbn; auto. discriminate.
+      - constructor; cbn; auto.
+        + intros Hf. specialize (C6 Hf). unfold held, unconf_jobs in *. cbn.
+          set (U := flat_map jobs_of (w_bindings s)) in *. clearbody U. perm_solve.
+        + intros j Hj. apply in_app_or in Hj. destruct Hj as [Hj|[<-|[]]]; [auto|cbn; lia].
+        + rewrite map_app. cbn. apply NoDup_snoc; [assumption|]. intros Hin. apply in_map_iff in Hin.
+          destruct Hin as (j & Hj1 & Hj2). specialize (K2 j Hj2). lia.
+        + discriminate. }
+    apply (w_progress_core _ _ _ C2' H).
+  - destruct (hs_eqb (w_hs s) HsAccept && (t =? w_tok s) && (m =? w_pmid s)); [injection H as <- <-; assumption|].
+    destruct ((t =? w_ltok s) && (m =? w_lmid s)); [injection H as <- <-; assumption|].
+    apply (w_terminate_core _ _ _ C H).
+Qed.
+
+Lemma wp_step_core s i s' o : WCore s -> wp_step s i = (s', o) -> WCore s'.
+Proof.
+  intros C H. unfold wp_step in H. destruct (w_failed s) eqn:Hf; [injection H as <- <-; assumption|].
+  destruct i as [[|] c n|c se n cf u v|c se n cf|[|] se t m|[|] se t m|[|]|c]; try (injection H as <- <-; assumption).
+  - eapply w_register_core; eassumption.
+  - eapply w_request_core; eassumption.
+  - eapply w_ack_core; eassumption.
+  - eapply w_produced_core; eassumption.
+  - eapply w_storedack_core; eassumption.
+  - unfold w_terminated in H. destruct (find_ctrl c (w_bindings s)) as [b|]; [|injection H as <- <-; assumption].
+    apply (w_progress_core _ _ _ (w_end_binding_core s (b_name b) C) H).
+Qed.
+
+Theorem wrun_core sess notify ins : WCore (wrun (w_init sess notify) ins).
+Proof.
+  unfold wrun. generalize (WCore_init sess notify). generalize (w_init sess notify).
+  induction ins as [|i ins IH]; intros s C; [exact C|]. cbn [fold_left]. apply IH.
+  destruct (wp_step s i) as [s' o] eqn:H. cbn. eapply wp_step_core; eassumption.
+Qed.
+
+(* ------------------------------------------------------------------ no accepted job waits while a live binding has demand *)
+Definition start_idx (s : wstate) : nat :=
+  if (length (w_order s) <=? w_next s)%nat then 0%nat else w_next s.
+
+Lemma next_eligible_none f : forall s s1,
+  w_order s <> [] -> next_eligible f s = (s1, None) -> w_panic s1 = false ->
+  forall j, (j < f)%nat -> forall name b,
+    nth_error (w_order s) ((start_idx s + j) mod length (w_order s)) = Some name ->
+    lookup name (w_bindings s) = Some b -> free_demand b <= 0.
+Proof.
+  induction f as [|f IH]; intros s s1 Ho H Hpn j Hj name b Hnth Hl; [lia|].
+  cbn [next_eligible] in H. fold (start_idx s) in H.
+  set (L := length (w_order s)) in *. set (n := start_idx s) in *.
+  assert (HL : (0 < L)%nat) by (subst L; destruct (w_order s); [congruence|cbn; lia]).
+  assert (Hn : (n < L)%nat) by (subst n; unfold start_idx; fold L; destruct (Nat.leb_spec L (w_next s)); lia).
+  destruct (nth_error (w_order s) n) as [name0|] eqn:Hn0.
+  2:{ injection H as <-. cbn in Hpn. discriminate. }
+  cbn [w_bindings set_next set_core] in H.
+  assert (Hrec : next_eligible f (set_next s (S n)) = (s1, None) -> free_demand b <= 0).
+  { intros Hr. destruct j as [|j'].
+    - (* the first examined entry itself *)
+      rewrite Nat.add_0_r, Nat.mod_small in Hnth by assumption. rewrite Hn0 in Hnth. injection Hnth as ->.
+      destruct (lookup name (w_bindings s)) as [b0|] eqn:Hl0; [|discriminate]. injection Hl as ->.
+      destruct (Z.gtb_spec (free_demand b) 0); [discriminate H|lia].
+    - apply (IH (set_next s (S n)) s1 Ho Hr Hpn j' ltac:(lia) name b); [|exact Hl].
+      cbn [w_order set_next set_core]. fold L.
+      assert (Hs : start_idx (set_next s (S n)) = (S n mod L)%nat).
+      { unfold start_idx. cbn [w_order w_next set_next set_core]. fold L.
+        destruct (Nat.leb_spec L (S n)).
+        - assert (S n = L) by lia. rewrite H1. rewrite Nat.mod_same by lia. reflexivity.
+        - rewrite Nat.mod_small by lia. reflexivity. }
+      rewrite Hs. rewrite Nat.add_mod_idemp_l by lia.
+      replace (S n + j')%nat with (n + S j')%nat by lia. exact Hnth. }
+  destruct (lookup name0 (w_bindings s)) as [b0|] eqn:Hl0.
+  - destruct (Z.gtb_spec (free_demand b0) 0); [discriminate H|]. apply Hrec. exact H.
+  - apply Hrec. exact H.
+Qed.
+
+Lemma next_eligible_complete s s1 :
+  WCore s -> w_order s <> [] -> next_eligible (length (w_order s)) s = (s1, None) -> agg_free s = 0.
+Proof.
+  intros C Ho H. destruct (next_eligible_core _ _ _ _ C Ho H) as (C1 & _ & _).
+  unfold agg_free. apply agg_zero_all. intros b Hb.
+  pose proof (free_demand_nonneg b). cut (free_demand b <= 0); [lia|].
+  set (L := length (w_order s)). assert (HL : (0 < L)%nat) by (subst L; destruct (w_order s); [congruence|cbn; lia]).
+  assert (Hin : In (b_name b) (w_order s)) by (apply (wc_order _ C); apply in_map; assumption).
+  apply In_nth_error in Hin. destruct Hin as [i Hi].
+  assert (HiL : (i < L)%nat) by (apply nth_error_Some; congruence).
+  set (n0 := start_idx s).
+  assert (Hn0 : (n0 < L)%nat) by (subst n0; unfold start_idx; fold L; destruct (Nat.leb_spec L (w_next s)); lia).
+  assert (Hj : exists j, (j < L)%nat /\ ((n0 + j) mod L = i)%nat).
+  { destruct (Nat.le_gt_cases n0 i).
+    - exists (i - n0)%nat. split; [lia|]. replace (n0 + (i - n0))%nat with i by lia. apply Nat.mod_small. assumption.
+    - exists (i + L - n0)%nat. split; [lia|]. replace (n0 + (i + L - n0))%nat with (i + 1 * L)%nat by lia.
+      rewrite Nat.mod_add by lia. apply Nat.mod_small. assumption. }
+  destruct Hj as (j & Hj1 & Hj2).
+  apply (next_eligible_none L s s1 Ho H (wc_panic _ C1) j Hj1 (b_name b) b).
+  - fold L. fold n0. rewrite Hj2. exact Hi.
+  - apply in_lookup; [apply (wc_names _ C)|assumption].
+Qed.
+
+Definition stuckfree (s : wstate) : Prop := w_failed s = false -> w_pending s = [] \/ agg_free s = 0.
+
+Lemma dispatch_stuckfree f : forall s s' o,
+  WCore s -> (length (w_pending s) <= f)%nat -> dispatch f s = (s', o) -> stuckfree s'.
+Proof.
+  induction f as [|f IH]; intros s s' o C Hlen H; cbn [dispatch] in H.
+  { injection H as <- <-. intros _. left. destruct (w_pending s); [reflexivity|cbn in Hlen; lia]. }
+  destruct (w_pending s) as [|work rest] eqn:Hp.
+  { injection H as <- <-. intros _. left. assumption. }
+  destruct (w_order s) as [|o1 ot] eqn:Ho.
+  { injection H as <- <-. intros _. right. unfold agg_free.
+    destruct (w_bindings s) as [|b bs] eqn:Hb; [reflexivity|]. exfalso.
+    assert (In (b_name b) (w_order s)) by (apply (wc_order _ C); rewrite Hb; left; reflexivity). rewrite Ho in H. contradiction. }
+  rewrite <- Ho in H.
+  assert (Hne0 : w_order s <> []) by (rewrite Ho; discriminate).
+  destruct (next_eligible (length (w_order s)) s) as [s1 ob] eqn:Hne.
+  destruct (next_eligible_core _ _ _ _ C Hne0 Hne) as (C1 & [k Hk] & Hb).
+  destruct ob as [b|].
+  2:{ injection H as <- <-. intros _. right. rewrite Hk. pose proof (next_eligible_complete s s1 C Hne0 Hne) as Hz.
+      unfold agg_free in *. cbn. exact Hz. }
+  destruct (Hb b eq_refl) as [Hl Hfd].
+  assert (Hl1 : lookup (b_name b) (w_bindings s1) = Some b) by (rewrite Hk; exact Hl).
+  assert (Hp1 : w_pending s1 = work :: rest) by (rewrite Hk; exact Hp).
+  set (s2 := set_core s1 rest (w_bindings s1) (w_order s1) (w_next s1)) in H.
+  destruct (b_cur b >=? maxI64 - 1).
+  { unfold w_terminate in H. destruct (w_failed s2) eqn:Hf2; injection H as <- <-; intros Hf; cbn in *; congruence. }
+  set (d := (fst work, b_cur b + 1, snd work)) in H.
+  set (b' := mkB (b_name b) (b_ctrl b) (b_nonce b) (b_cur b + 1) (b_conf b) (b_demand b) (b_unconf b ++ [d])) in H.
+  set (s3 := set_bindings s2 (put_b b' (w_bindings s2))) in H.
+  destruct (dispatch f s3) as [s4 o4] eqn:Hd. injection H as <- <-.
+  assert (C3 : WCore s3).
+  { change s3 with (set_ghost (set_core s1 rest (put_b b' (w_bindings s1)) (w_order s1) (w_next s1)) rest (w_accepted s1) (w_confirmed s1)).
+    apply (WCore_put s1 b b'); [assumption|exact Hl1| |].
+    - apply binding_ok_snoc; [apply (wc_bind _ C1); eapply lookup_in; exact Hl1|reflexivity].
+    - intros _. rewrite Hp1. unfold jobs_of. cbn [b_unconf b']. rewrite map_app. cbn [map].
+      assert (Hjd : job_of d = work) by (subst d; destruct work; reflexivity). rewrite Hjd.
+      change (work :: rest) with ([work] ++ rest). perm_solve. }
+  apply (IH s3 s4 o4 C3); [|exact Hd]. cbn. cbn in Hlen. lia.
+Qed.
+
+Lemma w_progress_stuckfree s s' o : WCore s -> w_progress s = (s', o) -> stuckfree s'.
+Proof.
+  intros C H. unfold w_progress in H. destruct (dispatch (length (w_pending s)) s) as [s1 o1] eqn:Hd.
+  destruct (w_allow s1) as [s2 o2] eqn:Ha. injection H as <- <-.
+  destruct (dispatch_core _ _ _ _ C Hd) as [C1 _].
+  pose proof (dispatch_stuckfree _ _ _ _ C (Nat.le_refl _) Hd) as S1.
+  destruct (w_allow_core _ _ _ C1 Ha) as (_ & A1 & A2 & A3).
+  intros Hf. unfold agg_free. rewrite A1, A2. apply S1. congruence.
+Qed.
+
+Lemma w_terminate_stuckfree s s' o : w_terminate s = (s', o) -> stuckfree s -> stuckfree s'.
+Proof.
+  unfold w_terminate. destruct (w_failed s) eqn:Hf; intros [= <- <-] S; [assumption|]. intros Habs. cbn in Habs. discriminate.
+Qed.
+
+Lemma wp_step_stuckfree s i s' o : WCore s -> stuckfree s -> wp_step s i = (s', o) -> stuckfree s'.
+Proof.
+  intros C S H. unfold wp_step in H. destruct (w_failed s) eqn:Hf; [injection H as <- <-; assumption|].
+  destruct i as [[|] c n|c se n cf u v|c se n cf|[|] se t m|[|] se t m|[|]|c]; try (injection H as <- <-; assumption).
+  - (* Register *)
+    unfold w_register in H.
+    match type of H with (match lookup _ (w_bindings ?S1) with _ => _ end) = _ => set (s1 := S1) in H end.
+    assert (C1 : WCore s1).
+    { subst s1. destruct (lookup (owner c) (w_bindings s)) as [b|] eqn:Hl.
+      - destruct (b_ctrl b =? c).
+        + destruct (b_nonce b =? n); [assumption|]. pose proof (lookup_name _ _ _ Hl) as Hn.
+          apply (WCore_same_jobs s b); cbn; auto. rewrite Hn. exact Hl.
+        + apply WCore_add; [apply w_end_binding_core; assumption|]. unfold w_end_binding. rewrite Hl. cbn. rewrite remove_b_lookup, Z.eqb_refl. reflexivity.
+      - apply WCore_add; assumption. }
+    destruct (lookup (owner c) (w_bindings s1)) as [b|] eqn:Hl1.
+    2:{ (* unreachable: the binding was just stored *)
+        exfalso. subst s1. destruct (lookup (owner c) (w_bindings s)) as [b|] eqn:Hl.
+        - destruct (b_ctrl b =? c) eqn:Hc.
+          + destruct (b_nonce b =? n); [congruence|]. cbn in Hl1. rewrite put_b_lookup in Hl1 by (cbn; eapply in_names_lookup; rewrite <- (lookup_name _ _ _ Hl) in Hl; exact Hl).
+            cbn in Hl1. rewrite (lookup_name _ _ _ Hl), Z.eqb_refl in Hl1. discriminate.
+          + cbn in Hl1. clear -Hl1. induction (w_bindings (w_end_binding s (owner c))) as [|a l IH]; cbn in Hl1; [rewrite Z.eqb_refl in Hl1; discriminate|].
+            destruct (b_name a =? owner c); [discriminate|auto].
+        - cbn in Hl1. clear -Hl1. induction (w_bindings s) as [|a l IH]; cbn in Hl1; [rewrite Z.eqb_refl in Hl1; discriminate|].
+          destruct (b_name a =? owner c); [discriminate|auto]. }
+    destruct ((w_sess s1 =? 0) || (b_conf b + 1 <=? 0) || (b_nonce b =? 0)).
+    + destruct (w_terminate_core _ _ _ C1 H) as (_ & _ & Hft). intros Habs. congruence.
+    + destruct (w_progress s1) as [s2 o2] eqn:Hp. injection H as <- <-. apply (w_progress_stuckfree _ _ _ C1 Hp).
+  - (* Request *)
+    unfold w_request in H. destruct (binding_from s c se n) as [b|] eqn:Hb; [|injection H as <- <-; assumption].
+    pose proof (binding_from_in _ _ _ _ _ Hb) as Hin.
+    destruct ((cf <? 0) || (cf >? b_cur b) || (u <? cf) || (u >? cf + maxWindowCap)) eqn:Hr.
+    { apply (w_progress_stuckfree _ _ _ (w_end_binding_core s (b_name b) C) H). }
+    destruct (w_advance s b cf) as [s1 o1] eqn:Ha.
+    destruct (w_advance_core s b cf s1 o1 C Hin ltac:(lia) Ha) as (C1 & F1 & Ff & b1 & Hl1 & Hc1 & Hn1).
+    rewrite Hl1 in H.
+    set (b2 := mkB (b_name b1) (b_ctrl b1) (b_nonce b1) (b_cur b1) (b_conf b1) u (b_unconf b1)) in H.
+    set (s2 := set_bindings s1 (put_b b2 (w_bindings s1))) in H.
+    assert (C2 : WCore s2) by (apply (WCore_same_jobs s1 b1); cbn; auto; rewrite Hn1; exact Hl1).
+    destruct (w_progress s2) as [s3 o3] eqn:Hp. injection H as <- <-. apply (w_progress_stuckfree _ _ _ C2 Hp).
+  - (* Ack *)
+    unfold w_ack in H. destruct (binding_from s c se n) as [b|] eqn:Hb; [|injection H as <- <-; assumption].
+    pose proof (binding_from_in _ _ _ _ _ Hb) as Hin.
+    destruct ((cf <? 0) || (cf >? b_cur b)) eqn:Hr.
+    { apply (w_progress_stuckfree _ _ _ (w_end_binding_core s (b_name b) C) H). }
+    destruct (w_advance s b cf) as [s1 o1] eqn:Ha.
+    destruct (w_advance_core s b cf s1 o1 C Hin ltac:(lia) Ha) as (C1 & _).
+    destruct (w_progress s1) as [s2 o2] eqn:Hp. injection H as <- <-. apply (w_progress_stuckfree _ _ _ C1 Hp).
+  - (* Produced: pending and bindings untouched *)
+    unfold w_produced in H.
+    assert (Hkeep : forall q hs pm ps, stuckfree (set_hs s q hs (w_tok s) pm ps (w_stored s) (w_ltok s) (w_lmid s) (w_ntok s))).
+    { intros q hs pm ps Hf'. apply S. exact Hf'. }
+    repeat match type of H with
+           | (if ?c then _ else _) = _ => destruct c
+           end; try (injection H as <- <-; assumption);
+      try (eapply w_terminate_stuckfree; [exact H|]; first [assumption|apply Hkeep]).
+  - (* StoredAck *)
+    unfold w_storedack in H.
+    destruct (negb (se =? w_sess s)); [injection H as <- <-; assumption|].
+    destruct (hs_eqb (w_hs s) HsStoredAck && (t =? w_tok s) && (m =? w_pmid s)) eqn:Hm.
+    + assert (Hhs : w_hs s = HsStoredAck) by (apply hs_eqb_eq; lia).
+      pose proof C as [C1 C2 C3 C4 C5 C6 C7 C8 C9 C10]. destruct (C10 Hf Hhs) as [K1 K2].
+      match type of H with w_progress ?S2 = _ => set (s2 := S2) in H end.
+      assert (C2' : WCore s2).
+      { subst s2. destruct (w_owns s (w_pmid s)).
+        - constructor; cbn; auto. discriminate.
+        - constructor; cbn; auto.
+          + intros Hf'. specialize (C6 Hf'). unfold held, unconf_jobs in *. cbn.
+            set (U := flat_map jobs_of (w_bindings s)) in *. clearbody U. perm_solve.
+          + intros j Hj. apply in_app_or in Hj. destruct Hj as [Hj|[<-|[]]]; [auto|cbn; lia].
+          + rewrite map_app. cbn. apply NoDup_snoc; [assumption|]. intros Hin. apply in_map_iff in Hin.
+            destruct Hin as (j & Hj1 & Hj2). specialize (K2 j Hj2). lia.
+          + discriminate. }
+      apply (w_progress_stuckfree _ _ _ C2' H).
+    + destruct (hs_eqb (w_hs s) HsAccept && (t =? w_tok s) && (m =? w_pmid s)); [injection H as <- <-; assumption|].
+      destruct ((t =? w_ltok s) && (m =? w_lmid s)); [injection H as <- <-; assumption|].
+      eapply w_terminate_stuckfree; eassumption.
+  - (* Terminated *)
+    unfold w_terminated in H. destruct (find_ctrl c (w_bindings s)) as [b|]; [|injection H as <- <-; assumption].
+    apply (w_progress_stuckfree _ _ _ (w_end_binding_core s (b_name b) C) H).
+Qed.
+
+Theorem wrun_stuckfree sess notify ins : stuckfree (wrun (w_init sess notify) ins).
+Proof.
+  unfold wrun.
+  assert (S0 : stuckfree (w_init sess notify)) by (intros _; left; reflexivity).
+  generalize (WCore_init sess notify) S0. generalize (w_init sess notify).
+  induction ins as [|i ins IH]; intros s C S; [exact S|]. cbn [fold_left].
+  destruct (wp_step s i) as [s' o] eqn:H. cbn. apply IH; [eapply wp_step_core; eassumption|eapply wp_step_stuckfree; eassumption].
+Qed.
+
+Lemma requeue_front s ctrl b :
+  find_ctrl ctrl (w_bindings s) = Some b -> w_failed s = false -> NoDup (names (w_bindings s)) ->
+  wp_step s (WTerminated ctrl) = w_progress (w_end_binding s (b_name b)) /\
+  w_pending (w_end_binding s (b_name b)) = map job_of (b_unconf b) ++ w_pending s /\
+  lookup (b_name b) (w_bindings (w_end_binding s (b_name b))) = None /\
+  ~ In (b_name b) (w_order (w_end_binding s (b_name b))).
+Proof.
+  intros Hf Hnf Hn. destruct (find_ctrl_in _ _ _ Hf) as [Hin _].
+  pose proof (in_lookup b (w_bindings s) Hn Hin) as Hl.
+  splits.
+  - unfold wp_step. rewrite Hnf. unfold w_terminated. rewrite Hf. reflexivity.
+  - unfold w_end_binding. rewrite Hl. reflexivity.
+  - unfold w_end_binding. rewrite Hl. cbn. rewrite remove_b_lookup, Z.eqb_refl. reflexivity.
+  - unfold w_end_binding. rewrite Hl. cbn. rewrite filter_In. intros [_ Hx]. rewrite Z.eqb_refl in Hx. discriminate.
 Qed.
